@@ -9,6 +9,7 @@
   correspondence stream.
 -/
 import Dlismodel.Proofs.Prim
+import Dlismodel.Proofs.Float
 namespace Dlis.C06
 open Dlis
 
@@ -96,7 +97,43 @@ pattern (`beN`), which `rdN` inverts: bit-exactness for NaN payloads, ±0, ±inf
 theorem bits_roundtrip (k n : Nat) (rest : Bytes) (h : n < 256 ^ k) :
     rdN k (beN k n ++ rest) = some (n, rest) := rdN_beN k n rest h
 
+/-! FSINGL of a Python float (a double): `struct.pack('>f', x)`, modelled on bit patterns by `f64ToF32`.
+Magnitudes are compared exactly, as natural numbers (`f64Mag`: units of 2^-1074; `f32Mag`: units of 2^-149, defined
+on all magnitude bit patterns, i.e. with the exponent range continued upwards). -/
+
+/-- a value a single can hold is written exactly: a single widened to a double packs back to itself -/
+theorem fsingl_exact_when_representable (s d : Nat) (hs : s < 2 ^ 32) (h : f32ToF64 s = some d) :
+    f64ToF32 d = .ok s := f64ToF32_widen s d hs h
+
+/-- any other finite double that is packed gets the double's sign and a finite single than which NO single is nearer;
+where two are equally near, the one with the even significand -/
+theorem fsingl_rounds_to_nearest (b r : Nat) (hfin : b / 2 ^ 52 % 2048 ≠ 2047) (h : f64ToF32 b = .ok r) :
+    r / 2 ^ 31 = b / 2 ^ 63 ∧ r % 2 ^ 31 < 255 * 2 ^ 23 ∧
+      (∀ t, dist (f64Mag b) (f32Mag (r % 2 ^ 31) * 2 ^ 925) ≤ dist (f64Mag b) (f32Mag t * 2 ^ 925)) ∧
+      (∀ t, t ≠ r % 2 ^ 31 →
+        dist (f64Mag b) (f32Mag (r % 2 ^ 31) * 2 ^ 925) = dist (f64Mag b) (f32Mag t * 2 ^ 925) → r % 2 = 0) :=
+  have h1 := f64ToF32_nearest b r hfin h
+  ⟨h1.1, h1.2.1, h1.2.2, fun t hne heq => f64ToF32_ties_to_even b r t hfin h hne heq⟩
+
+/-- out of range is refused, nothing else is: a double is not packed iff it is finite and its magnitude is at least
+`(2^25 - 1) * 2^103`, half-way between the largest finite single and 2^128 (here doubled, in units of 2^-1074); the
+error is OverflowError -/
+theorem fsingl_refuses_out_of_range (b : Nat) (e : Err) :
+    f64ToF32 b = .error e ↔
+      e = .overflow ∧ b / 2 ^ 52 % 2048 ≠ 2047 ∧ (2 ^ 25 - 1) * (2 ^ 253 * 2 ^ 925) ≤ 2 * f64Mag b :=
+  f64ToF32_overflow_iff b e
+
+/-- infinities and NaNs stay what they are, with their sign -/
+theorem fsingl_special (b : Nat) (h : b / 2 ^ 52 % 2048 = 2047) :
+    ∃ r, f64ToF32 b = .ok r ∧ r / 2 ^ 31 = b / 2 ^ 63 ∧ r / 2 ^ 23 % 256 = 255 ∧ (r % 2 ^ 23 = 0 ↔ b % 2 ^ 52 = 0) :=
+  f64ToF32_special b h
+
 /-! non-vacuity: concrete values meet the hypotheses -/
+example : f64ToF32 0x3FB999999999999A = .ok 0x3DCCCCCD := by decide            -- 0.1
+example : f64ToF32 0x47EFFFFFEFFFFFFF = .ok 0x7F7FFFFF := by decide            -- just below the threshold: largest single
+example : f64ToF32 0x47EFFFFFF0000000 = .error .overflow := by decide          -- the threshold itself (a tie, to even)
+example : f64ToF32 0x3690000000000000 = .ok 0 := by decide                     -- 2^-150: tie between 0 and 2^-149
+example : f64ToF32 0x3690000000000001 = .ok 1 := by decide
 example : encUvari 16383 = .ok [0xBF, 0xFF] := by decide
 example : encUvari 16384 = .ok [0xC0, 0x00, 0x40, 0x00] := by decide
 example : encUvari 1073741824 = .error .struct := by decide
